@@ -11,7 +11,7 @@ RULE = ('streams: parse (get_ast vs Lean parseGeom, exact tree incl. associativi
         'malformed stream), normalize (char-level model vs parsegeom.normalize), complement '
         '(pot_complement captured in a real conversion vs Lean potComplement), boolmon (spec monitor: the '
         "generator's AST read the MCNP way vs the converter's post-complement tree on all 2^n sense "
-        'assignments, evaluated by the Lean spec). A case is non-trivial when its expression has at least '
+        'assignments, evaluated by the Lean spec), written (the volumes finally written for a deep expression vs the MCNP reading of the card, point monitor). A case is non-trivial when its expression has at least '
         'two operators or a complement; distinct = distinct canonical text / deck.')
 NOT_PROVED = ['the fuel 2·len+4 of the parseGeom model is not shown sufficient for every expression (the theorems use '
               'the fuel u.cost; the correspondence stream compares parseGeom with the code)',
@@ -28,12 +28,14 @@ def plan(tier):
         ('malformed', 300 if q else 3000, {}),
         ('complement', 120 if q else 1500, {}),
         ('boolmon', 150 if q else 2500, {}),
+        ('written', 150 if q else 2500, {}),
     ]
 
 
 def search_plan(tier, disagreements):
     return [('boolmon', 600 if tier == 'quick' else 4000, {'search': True}),
-            ('parsemon', 1500 if tier == 'quick' else 10000, {})]
+            ('parsemon', 1500 if tier == 'quick' else 10000, {}),
+            ('written', 600 if tier == 'quick' else 4000, {})]
 
 
 # ------------------------------------------------------------------ helpers
@@ -185,6 +187,15 @@ def run_case(stream, seed, ctx, params):
         return dict(hashes=[h(text)], nontrivial_hashes=[h(text)],
                     dist={'malformed:rejected' if 'error' in a else 'malformed:accepted': 1},
                     sample={'text': text, 'code': a[:120]}, failures=fails)
+    if stream == 'written':
+        # the expression as it is finally written (EQUA / INTE / UNION volumes of the output file) against the MCNP
+        # reading of the card, at sample points: deep expressions over elementary surfaces, surface numbers in the
+        # range of the converter's own numbers
+        from .geomcommon import run_deck
+        d = G.build_flat_deck(rng, macro_p=0.1, imp0_p=0.0, p_obf=0.4, depth=rng.randint(2, 5),
+                              nsurf=rng.randint(3, 7), ncells=rng.randint(1, 3))
+        return run_deck(ctx, stream, d, ['--skip-deduplication'] if rng.random() < 0.5 else [], rng, npts=150,
+                        with_comp=False)
     if stream in ('complement', 'boolmon'):
         d = G.build_flat_deck(rng, macro_p=0.2, imp0_p=0.1, p_obf=0.3)
         text = D.render_deck(d, D.Layout(rng))
@@ -273,6 +284,9 @@ def replay(payload, ctx):
             e = tuple_ify(p['expr'])
             out['spec'] = expr_vs_tree(ctx, e, out['code'], 0)
             out['violation'] = out['spec'] is not None
+    if 'deck' in p and 'points' in p:
+        from .geomcommon import replay_deck
+        return replay_deck(payload, ctx)
     if 'deck' in p:
         res, cap = C.convert_capture(p['deck'])
         out['exception'] = res.exc_type
